@@ -49,7 +49,15 @@ def run_model(exe, cases_path, out_path, timeout=3000):
     with open(cases_path) as fin, open(out_path, "w") as fout:
         import subprocess
         try:
-            p = subprocess.run([exe], stdin=fin, stdout=fout, stderr=subprocess.PIPE, timeout=timeout, env={**os.environ, "OCAMLRUNPARAM": "l=8G"})
+            def big_stack():
+                # extracted list functions are not tail recursive: 65535-word instructions need a deep stack
+                import resource
+                try:
+                    resource.setrlimit(resource.RLIMIT_STACK, (resource.RLIM_INFINITY, resource.RLIM_INFINITY))
+                except (ValueError, OSError):
+                    pass
+            p = subprocess.run([exe], stdin=fin, stdout=fout, stderr=subprocess.PIPE, timeout=timeout, preexec_fn=big_stack,
+                               env={**os.environ, "OCAMLRUNPARAM": "l=8G"})
             return p.returncode, p.stderr.decode(errors="replace")[-2000:]
         except subprocess.TimeoutExpired:
             return 124, "modelrun timeout"
